@@ -134,32 +134,50 @@ Definition plc_len (plc : N) : option N :=
   | _ => None
   end.
 
-(* [Some None]: an option to be ignored; [None]: the message is malformed *)
+(* "reserved fields (including the bits of a prefix beyond its length) are zero":
+   the reserved fields of the option types this decoder understands *)
+Definition reserved_body (ty : N) (body : list N) : bool :=
+  match ty with
+  | 5 => all_zero (takeN 2 body)
+  | 3 => match body with
+         | plen :: flags :: r =>
+           (flags mod 64 =? 0) && all_zero (takeN 4 (dropN 8 r)) && tail_bits_zero plen (dropN 12 r)
+         | _ => false
+         end
+  | 25 => all_zero (takeN 2 body)
+  | 31 => all_zero (takeN 2 body)
+  | 38 => match plc_len (u16_at body mod 8) with
+          | Some plen => tail_bits_zero plen (dropN 2 body)
+          | None => false
+          end
+  | _ => true
+  end.
+
+(* the value of an option whose reserved fields have been checked.
+   [Some None]: an option to be ignored; [None]: the message is malformed *)
 Definition rfc_opt_body (ty len : N) (body : list N) : option (option rfc_opt) :=
   match ty with
   | 1 => Some (Some (RSll body))
-  | 5 =>
-    if (len =? 1) && all_zero (takeN 2 body) then Some (Some (RMtu (u32_at (dropN 2 body)))) else None
+  | 5 => if len =? 1 then Some (Some (RMtu (u32_at (dropN 2 body)))) else None
   | 3 =>
     if negb (len =? 4) then None else
     match body with
     | plen :: flags :: r =>
-      let prefix := dropN 12 r in
-      if (plen <=? 128) && (flags mod 64 =? 0) && all_zero (takeN 4 (dropN 8 r)) && tail_bits_zero plen prefix
+      if plen <=? 128
       then Some (Some (RPrefix {| rp_len := plen; rp_onlink := 128 <=? flags; rp_auto := 64 <=? flags mod 128;
                                   rp_valid := u32_at r; rp_preferred := u32_at (dropN 4 r);
-                                  rp_prefix := prefix |}))
+                                  rp_prefix := dropN 12 r |}))
       else None
     | _ => None
     end
   | 25 =>
-    if (len <? 3) || (len mod 2 =? 0) || negb (all_zero (takeN 2 body)) then None else
+    if (len <? 3) || (len mod 2 =? 0) then None else
     match chunks16 (length body) (dropN 6 body) with
     | Some servers => Some (Some (RRdnss (u32_at (dropN 2 body)) servers))
     | None => None
     end
   | 31 =>
-    if (len <? 2) || negb (all_zero (takeN 2 body)) then None else
+    if len <? 2 then None else
     match dnssl_names (S (length body)) (dropN 6 body) with
     | Some [] => None                                      (* at least one domain name *)
     | Some ds => Some (Some (RDnssl (u32_at (dropN 2 body)) ds))
@@ -169,9 +187,7 @@ Definition rfc_opt_body (ty len : N) (body : list N) : option (option rfc_opt) :
     if negb (len =? 2) then None else
     let v := u16_at body in
     match plc_len (v mod 8) with
-    | Some plen =>
-      let p := dropN 2 body in
-      if tail_bits_zero plen p then Some (Some (RPref64 (v / 8 * 8) plen p)) else None
+    | Some plen => Some (Some (RPref64 (v / 8 * 8) plen (dropN 2 body)))
     | None => None
     end
   | 37 => Some (Some (RCaptive (strip_trailing_zeros body)))
@@ -186,7 +202,7 @@ Fixpoint rfc_options (fuel : nat) (b : list N) : option (list rfc_opt) :=
     match b with
     | [] => Some []
     | ty :: len :: r =>
-      if (len =? 0) || (lenN r <? len * 8 - 2) then None
+      if (len =? 0) || (lenN r <? len * 8 - 2) || negb (reserved_body ty (takeN (len * 8 - 2) r)) then None
       else match rfc_opt_body ty len (takeN (len * 8 - 2) r), rfc_options k (dropN (len * 8 - 2) r) with
            | Some (Some o), Some os => Some (o :: os)
            | Some None, Some os => Some os
@@ -237,23 +253,7 @@ Fixpoint options_tile (fuel : nat) (b : list N) : bool :=
 Definition lengths_ok (b : list N) : bool :=
   (lenN b mod 8 =? 0) && (16 <=? lenN b) && options_tile (length b) (dropN 16 b).
 
-(* "reserved fields (including the bits of a prefix beyond its length) are zero" *)
-Definition reserved_body (ty : N) (body : list N) : bool :=
-  match ty with
-  | 5 => all_zero (takeN 2 body)
-  | 3 => match body with
-         | plen :: flags :: r =>
-           (flags mod 64 =? 0) && all_zero (takeN 4 (dropN 8 r)) && tail_bits_zero plen (dropN 12 r)
-         | _ => false
-         end
-  | 25 => all_zero (takeN 2 body)
-  | 31 => all_zero (takeN 2 body)
-  | 38 => match plc_len (u16_at body mod 8) with
-          | Some plen => tail_bits_zero plen (dropN 2 body)
-          | None => false
-          end
-  | _ => true
-  end.
+(* "reserved fields (including the bits of a prefix beyond its length) are zero", over a whole message *)
 Fixpoint reserved_opts (fuel : nat) (b : list N) : bool :=
   match fuel with
   | O => true
